@@ -82,11 +82,29 @@ func runOne(n int, g Graph, strat vsched.Strategy, budget int) ([]Event, vsched.
 		}
 		mu.Unlock()
 	}
-	usePtr := atomic.AddInt64(&runSeq, 1)%2 == 0
+	repr := atomic.AddInt64(&runSeq, 1) % 3
+	usePtr := repr == 0
 	nodes := map[string]*node{}
 	names := map[*node]string{}
+	// third representation: the items are the values a caller is least likely to have tried - nil, zero values of
+	// several types - every one a distinct, valid map key
+	specials := []any{nil, "", 0, false, struct{}{}, 0.0, [0]int{}}
+	special := map[string]int{}
 	var nmu sync.Mutex
 	toItem := func(x string) any {
+		if repr == 2 {
+			nmu.Lock()
+			defer nmu.Unlock()
+			k, ok := special[x]
+			if !ok {
+				k = len(special)
+				special[x] = k
+			}
+			if k < len(specials) {
+				return specials[k]
+			}
+			return x
+		}
 		if !usePtr {
 			return x
 		}
@@ -99,6 +117,16 @@ func runOne(n int, g Graph, strat vsched.Strategy, budget int) ([]Event, vsched.
 		return nodes[x]
 	}
 	fromItem := func(item any) string {
+		if repr == 2 {
+			nmu.Lock()
+			defer nmu.Unlock()
+			for x, k := range special {
+				if k < len(specials) && specials[k] == item {
+					return x
+				}
+			}
+			return item.(string)
+		}
 		if s, ok := item.(string); ok {
 			return s
 		}
